@@ -66,6 +66,41 @@ def source(seq: list[str]) -> str:
     return "".join(TOKENS[t] for t in seq)
 
 
+_TAG_RE = __import__("re").compile(r"\{%-?\s*(\w+|#)?.*?-?%\}", __import__("re").S)
+
+
+def strip_extraneous(src: str) -> str:
+    """Source without the regions the if/unless parsers skip: from an else/elsif that follows an else up to the first matching end tag."""
+    toks = [(m.start(), m.end(), m.group(1) or "") for m in _TAG_RE.finditer(src)]
+    removed: list[tuple[int, int]] = []
+    stack: list[list] = []
+    for s0, _e0, name in toks:
+        top = stack[-1] if stack else None
+        if top is not None and top[2] is not None:
+            if name == "end" + top[0]:
+                removed.append((top[2], s0))
+                stack.pop()
+            continue
+        if name.startswith("end"):
+            if top is not None and top[0] == name[3:]:
+                stack.pop()
+        elif name in ("if", "unless", "for", "case", "capture", "tablerow", "comment", "raw", "ifchanged", "liquid", "block", "macro", "with", "translate"):
+            stack.append([name, False, None])
+        elif name == "else" and top is not None and top[0] in ("if", "unless"):
+            if top[1]:
+                top[2] = s0
+            else:
+                top[1] = True
+        elif name == "elsif" and top is not None and top[0] in ("if", "unless") and top[1]:
+            top[2] = s0
+    out, pos = [], 0
+    for a, b in removed:
+        out.append(src[pos:a])
+        pos = b
+    out.append(src[pos:])
+    return "".join(out)
+
+
 def judge(ctx: core.Ctx, case: dict[str, Any]) -> None:
     extra = case.get("extra", False)
     e = env(extra)
@@ -105,6 +140,14 @@ def judge(ctx: core.Ctx, case: dict[str, Any]) -> None:
                             stack.append(tok.value)
                     where = "@inside-loop" if any(s in ("for", "tablerow") for s in stack) else "@outside-loop"
                 ctx.evaluations += 1
+                reduced = strip_extraneous(src)
+                if reduced != src:
+                    # mechanism: if/unless parse with a tag-specific lax mode that skips everything from a second else / an elsif after
+                    # else up to the closing end tag; tag analysis still looks inside the skipped region
+                    a2, p2 = drv.call(e.analyze_tags_from_string, reduced), drv.parse(e, reduced)
+                    if a2.ok and p2.ok and not (a2.value.unclosed_tags or a2.value.unexpected_tags or a2.value.unknown_tags):
+                        ctx.violation("false-alarm:tags-inside-extraneous-else-or-elsif-block-skipped-by-parser", f"{small!r:.200} parses in strict mode (the parser skips the extraneous block) but tag analysis reports {name} {tag!r} inside it", {"source": src})
+                        return
                 ctx.violation(f"false-alarm:{name}:{tag}{where}",f"{small!r:.200} parses in strict mode but tag analysis reports {name} {tag!r}", {"source": src, "report": {k: len(v) for k, v in m.items()}})
                 return
     # must-report rules, judged on the token sequence at the template-lexer level
